@@ -1,4 +1,4 @@
-CONSTANT Intact <- AllIntact
 SPECIFICATION Spec
 INVARIANTS TypeOK IntactOK TruncationRefused MandatoryMissingRefused ExtensionAllowed Decided ReloadLoads
 CHECK_DEADLOCK FALSE
+VIEW View
